@@ -416,6 +416,7 @@ pub fn chain_case(ctx: &Ctx, c: &CCase, counting: bool) -> PResult {
 		.collect();
 	raws.extend(c.blocks.iter().cloned());
 	let mut forge_left = c.forge.clone();
+	let mut late_forgery: Option<(grin_core::core::Block, u8)> = None;
 	let mut reorgs = 0;
 	for (i, raw) in raws.iter().enumerate() {
 		let built = w.build(cb.c(), raw, head).map_err(|e| Fail::new("builder", format!("op {}: {}", i, e)))?;
@@ -480,16 +481,33 @@ pub fn chain_case(ctx: &Ctx, c: &CCase, counting: bool) -> PResult {
 					let mut fb = built.block.clone();
 					fb.header.output_root = merged(&wrong_root);
 					seal(&mut fb, PowMode::Real, &w.nodes[head].block.header).map_err(|e| Fail::new("builder", e))?;
-					let res = cb.c().process_block(fb, opts(PowMode::Real));
-					ensure!(res.is_err(), "wrong-bitmap-accepted", "op {}: block whose output_root commits to a wrong bitmap (kind {}) was accepted", i, kind);
-					if counting {
-						ev.class(&format!("wrong_bitmap_rejected:{}", kind));
-						ev.nontrivial(&("forge", kind, built.block.outputs().len(), built.block.inputs().len()));
+					if pk % 2 == 1 {
+						// every second forgery arrives AFTER the honest block: a sibling of the new head with the same
+						// total work, i.e. a fork block that does not become the head — it has to be refused all the same
+						late_forgery = Some((fb, kind));
+					} else {
+						let res = cb.c().process_block(fb, opts(PowMode::Real));
+						ensure!(res.is_err(), "wrong-bitmap-accepted", "op {}: block whose output_root commits to a wrong bitmap (kind {}) was accepted", i, kind);
+						if counting {
+							ev.class(&format!("wrong_bitmap_rejected:{}", kind));
+							ev.nontrivial(&("forge", kind, built.block.outputs().len(), built.block.inputs().len()));
+						}
 					}
 				}
 			}
 		}
-		match cb.c().process_block(built.block.clone(), opts(PowMode::Real)) {
+		let honest_res = cb.c().process_block(built.block.clone(), opts(PowMode::Real));
+		if let Some((fb, kind)) = late_forgery.take() {
+			if honest_res.is_ok() {
+				let res = cb.c().process_block(fb, opts(PowMode::Real));
+				ensure!(res.is_err(), "wrong-bitmap-accepted", "op {}: sibling of the head whose output_root commits to a wrong bitmap (kind {}) was accepted as a fork block", i, kind);
+				if counting {
+					ev.class(&format!("wrong_bitmap_rejected_as_fork_sibling:{}", kind));
+					ev.nontrivial(&("forge-late", kind, built.block.outputs().len(), built.block.inputs().len()));
+				}
+			}
+		}
+		match honest_res {
 			Ok(tip) => {
 				let n = w.push(&built, model);
 				if tip.is_some() {
